@@ -1,7 +1,7 @@
 #!/usr/bin/env python3
 """Run checks against a scratch worktree of /repo with a change applied.
 
-usage: try_mutant.py [--patch file.diff | --sed 'path:::old:::new'] [--tier quick] [--tests] PROP [PROP...]
+usage: try_mutant.py [--patch file.diff | --sed 'path@@@old@@@new'] [--tier quick] [--tests] PROP [PROP...]
 
 The worktree lives under /tmp, is selected through MOKAPOT_REPO (never /repo
 itself), evidence goes to a scratch VERIF_OUT, and everything is removed at the
@@ -34,7 +34,7 @@ try:
     if a.patch:
         subprocess.run(["git", "-C", wt, "apply", os.path.abspath(a.patch)], check=True)
     for s in a.sed:
-        path, old, new = s.split(":::")
+        path, old, new = s.split("@@@")
         p = os.path.join(wt, path)
         txt = open(p).read()
         if txt.count(old) != 1:
